@@ -115,6 +115,16 @@ func (rc *realClient) loop() {
 				rc.s.w.Rec(world.Ev{Actor: "rc", Kind: "rc-marshal-err", Conn: rc.c.conn.ID, A: int64(i), S: err.Error()})
 				break
 			}
+			if op.Pkt.Only {
+				// pipelining: the request goes out, the reply is collected by a later Send
+				if err := rc.client.SendOnly(p); err != nil {
+					ev.SendErr = err.Error()
+					rc.s.w.Rec(world.Ev{Actor: "rc", Kind: "rc-send-err", Conn: rc.c.conn.ID, A: int64(i), S: err.Error()})
+				} else {
+					rc.s.w.Rec(world.Ev{Actor: "rc", Kind: "rc-sent-only", Conn: rc.c.conn.ID, A: int64(i)})
+				}
+				break
+			}
 			rep, err := rc.client.Send(p)
 			if err != nil {
 				ev.SendErr = err.Error()
